@@ -66,6 +66,9 @@ def cases() -> Any:
         # propagate_exceptions / await_inplace arguments configure the receiver it embeds
         "via": st.sampled_from(["receiver", "receiver", "inmemory", "inmemory_inplace"]),
         "startup": st.booleans(),
+        # a middleware whose on_error hook itself fails (worker driven through the Receiver): the callback is aborted, the dependencies
+        # that were opened are finalised all the same
+        "on_error_fails": st.sampled_from([False, False, False, True]),
     }))
 
 
@@ -90,6 +93,7 @@ def run_case(c: Dict[str, Any]) -> Outcome:
         logs.setdefault(k, []).append((kind, node_) + payload)
 
     cleanup_brokers: List[Any] = []
+    held: List[Any] = []
 
     async def main() -> None:
         tr = wh.Trace(loop)
@@ -109,6 +113,15 @@ def run_case(c: Dict[str, Any]) -> Outcome:
             if c.get("startup"):
                 await b.startup()       # what applications (and the docs' testing guide) do before sending
         b.result_backend = RB(tr)
+        if c.get("on_error_fails") and via == "receiver":
+            from taskiq import TaskiqMiddleware
+
+            class FailingOnError(TaskiqMiddleware):
+                async def on_error(self, message: Any, result: Any, exception: BaseException) -> None:
+                    LOG("on_error_hook")
+                    raise RuntimeError("error reporter is down")
+
+            b.add_middlewares(FailingOnError())
         kind = {"ret": "ret", "raise": "raise", "base": "base", "timeout": "ret", "nores": "nores", "badstr": "badstr", "falsy": "falsy"}[c["outcome"]]
         mod, task, src = dg.build(nodes, tdeps, {"kind": kind, "cleanup": c.get("cleanup", 0)}, LOG)
         b.register_task(task, task_name="t")
@@ -127,7 +140,13 @@ def run_case(c: Dict[str, Any]) -> Outcome:
                     await b.wait_all()
                 return
             m = b.formatter.dumps(AsyncKicker("t", b, labels).with_task_id(f"id{k}")._prepare_message(k, slp)).message
-            await r.callback(AckableMessage(data=m, ack=lambda: LOG("ack")))
+            try:
+                await r.callback(AckableMessage(data=m, ack=lambda: LOG("ack")))
+            except RuntimeError as e:
+                if "error reporter is down" not in str(e):
+                    raise
+                held.append(e)          # keep the frames alive: nothing gets finalised by the garbage collector behind the receiver's back
+                LOG("callback_aborted_by_hook")
 
         await asyncio.gather(*[one(k, s) for k, s in enumerate(c["starts"])])
         await asyncio.sleep(1.0)   # let stragglers (a function still cleaning up after its callback returned) be observed
@@ -162,6 +181,7 @@ def run_case(c: Dict[str, Any]) -> Outcome:
     info: Dict[str, Any] = {"uncached_nested": dg.uncached_with_yielding_descendant(nodes, tdeps)}
     multi_yield = False
     nonret = False
+    hook_aborted = False
     for k in range(len(c["starts"])):
         log = logs.get(k, [])
         seq = [(e[0], e[1]) for e in log if e[0] in ("open", "close") and isinstance(e[1], int) and yielding(e[1])]
@@ -209,6 +229,9 @@ def run_case(c: Dict[str, Any]) -> Outcome:
             out.add("C12.d", f"execution {k}: dependencies saw {[e[2] for e in saw]} although propagate={c['propagate']} outcome={c['outcome']} "
                              f"failed_dep={failed_dep}; log={_brief(log)}")
         want_saves = 0 if (c["outcome"] == "nores" and entered) else 1      # NoResultError: the execution stores nothing
+        if pos.get("callback_aborted_by_hook"):
+            hook_aborted = True
+            continue        # nothing stored, acknowledged at most at reception: the failing hook ended the processing (C10's subject)
         if len(pos.get("save", [])) != want_saves:
             out.add("C12.c", f"execution {k}: {len(pos.get('save', []))} results stored; log={_brief(log)}")
         if len(pos.get("ack", [])) != 1 and c.get("via", "receiver") == "receiver":
@@ -219,7 +242,7 @@ def run_case(c: Dict[str, Any]) -> Outcome:
     out.nontrivial = bool((multi_yield and nonret) or len(c["starts"]) >= 2)
     out.classes = [c["outcome"], c["ack_type"], "via=" + c.get("via", "receiver"), "propagate" if c["propagate"] else "no_propagate"] + [cl for cl, f in (
         ("uncached_nested_yielding", info["uncached_nested"]), ("multi_yield", multi_yield), ("concurrent", len(c["starts"]) >= 2),
-        ("async_cleanup", bool(c.get("cleanup"))), ("dependency_failure", any(nodes[i]["fail"] == "before" for i in dg.reachable(nodes, tdeps)))) if f]
+        ("async_cleanup", bool(c.get("cleanup"))), ("on_error_hook_failed", hook_aborted), ("dependency_failure", any(nodes[i]["fail"] == "before" for i in dg.reachable(nodes, tdeps)))) if f]
     out.trace = {"log0": _brief(logs.get(0, []))}
     return out
 
